@@ -1,7 +1,14 @@
-(* C04: the theorems it rests on (pattern soundness of the SASE model). Compiled on every run. *)
+(* C04: pattern part. Compiled on every run. *)
 From VP Require Import Base.Tactics Zdd.Model Sase.Model Sase.ProofsBounds Sase.ProofsSound Sase.ProofsSoundEngine
-  Sase.ProofsCompile Sase.Props.
-Check (C01_step_invariant :
-  forall g P en x en' ms, flags_ok (g_nfa g) -> all_good g P en -> process g en x = Some (en', ms) ->
-    all_good g (P ++ [x]) en' /\ Forall (genuine (g_nfa g) (g_negs g) (P ++ [x])) ms).
-Print Assumptions C01_step_invariant.
+  Sase.ProofsCompile Sase.ProofsKeyed Sase.Props.
+Check (C04_matches_single_key :
+  forall g f evs out, g_part g = Some f -> run_tagged g engine0 evs = Some out ->
+    Forall (fun p => Forall (match_keyed f (ekey f (fst p))) (snd p)) out).
+Check (C04_runs_single_key :
+  forall g f en x en' ms, g_part g = Some f -> parts_keyed f (e_parts en) -> process g en x = Some (en', ms) ->
+    parts_keyed f (e_parts en') /\ Forall (match_keyed f (ekey f x)) ms).
+Check (eq_refl : match_keyed = fun f k m =>
+  exists st, Forall (fun p => ekey f (fst p) = k) st /\ m_stack m = map (fun p => eid (fst p)) st).
+Check (eq_refl : ekey = fun f e => match get f e with Some v => KVal v | None => KMissing end).
+Print Assumptions C04_matches_single_key.
+Print Assumptions C04_runs_single_key.
